@@ -50,6 +50,11 @@ func genPlan(t *rapid.T, tier string) any {
 	return p
 }
 
+// distinct keys of different dynamic types, two of them with the same string contents
+type modPath string
+
+var keyValues = []any{"k", modPath("k"), 7}
+
 func run(t *testing.T, plan any, keep bool) *simcheck.Outcome {
 	p := plan.(*Plan)
 	out := &simcheck.Outcome{}
@@ -77,7 +82,7 @@ func run(t *testing.T, plan any, keep bool) *simcheck.Outcome {
 						if fRunning[k] {
 							getDuringF = true
 						}
-						v := c.Get(k)
+						v := c.Get(keyValues[k])
 						after, _ := tk.Local["mutexBlocked"].(int)
 						if after != before {
 							out.Violate("get-blocked", "Get(%d) waited for a mutex", k)
@@ -93,7 +98,7 @@ func run(t *testing.T, plan any, keep bool) *simcheck.Outcome {
 					if fRunning[k] {
 						secondDoDuringF = true
 					}
-					v := c.Do(k, func() any {
+					v := c.Do(keyValues[k], func() any {
 						invocations[k]++
 						if invocations[k] > 1 {
 							out.Violate("double-compute", "f for key %d invoked %d times", k, invocations[k])
@@ -141,6 +146,7 @@ func run(t *testing.T, plan any, keep bool) *simcheck.Outcome {
 	out.Count("mutex_lock", simsync.Stats.MutexLock)
 	out.Count("map_ops", simsync.Stats.MapOps)
 	out.Count("atomic_ops", simatomic.Ops)
+	out.Count("sync_ops", simsync.Ops+simatomic.Ops)
 	out.Count("context_switches", int64(rep.Switches))
 	if secondDoDuringF {
 		out.Count("probe_second_Do_while_f_running", 1)
@@ -170,7 +176,7 @@ var harness = &simcheck.Harness{
 	Assumptions: []string{
 		"sequentially consistent interleavings at seam granularity; hardware/compiler reordering (the memory-model half of safe publication) is not observable here and not claimed",
 	},
-	RequiredCounters: []string{"mutex_lock", "map_ops", "atomic_ops"},
+	RequiredCounters: []string{"sync_ops"},
 }
 
 func TestSim(t *testing.T) { simcheck.Main(t, harness) }
